@@ -316,6 +316,11 @@ def known_finding_runs(ctx):
         {"cfg": CFGS[0], "ops": [{"op": "add", "id": 1, "t": "a", "v": 0}, {"op": "commit"}, {"op": "del", "pred": {"k": "term", "t": "a"}},
                                  {"op": "delete_all"}, {"op": "add", "id": 2, "t": "a", "v": 0}, {"op": "commit"},
                                  {"op": "add", "id": 3, "t": "b", "v": 0}, {"op": "commit"}], "tag": "F-C"},
+        # F52: nothing pending at delete_all, but the writer has COMMITTED a delete with a larger opstamp than the one
+        # the stamper is reverted to: the re-added document is deleted by it
+        {"cfg": CFGS[0], "ops": [{"op": "add", "id": 1, "t": "a", "v": 0}, {"op": "commit"}, {"op": "add", "id": 2, "t": "b", "v": 0},
+                                 {"op": "add", "id": 3, "t": "b", "v": 0}, {"op": "del", "pred": {"k": "term", "t": "c"}}, {"op": "commit"},
+                                 {"op": "delete_all"}, {"op": "add", "id": 4, "t": "c", "v": 0}, {"op": "commit"}], "tag": "F52"},
     ]
     hp = ctx.path("kf_histories.ndjson")
     vlib.write_ndjson(hp, hs)
